@@ -289,6 +289,17 @@ impl Default for InjectorPP {
     }
 }
 
+impl Drop for InjectorPP {
+    fn drop(&mut self) {
+        // Restore in reverse order of installation: when the same function was faked more
+        // than once, the bytes saved by a later patch are those written by an earlier one,
+        // so the earliest patch must be undone last.
+        while let Some(guard) = self.guards.pop() {
+            drop(guard);
+        }
+    }
+}
+
 /// A guard that prevents injectorpp affecting the test while alive.
 ///
 /// When this guard is held, no any injectorpp instance can be created.
